@@ -10,6 +10,8 @@ import GocoinV.Proofs.C10Size
 import GocoinV.Proofs.C10Snap
 import GocoinV.Proofs.C10Keys
 import GocoinV.Proofs.C10Prime
+import GocoinV.Proofs.C10Undo
+import GocoinV.Gen.UtxoLoaderFacts
 namespace GocoinV.Props.C10
 open GocoinV GocoinV.UtxoRec GocoinV.ScriptCompress GocoinV.CompactSize
 
@@ -270,5 +272,79 @@ example : WFSnap ⟨true, 840000, List.replicate 32 1, []⟩ ∧
   intro r hr
   simp at hr
   rcases hr with rfl | rfl <;> decide
+
+/-! ## spend and undo: a stored record survives a partial spend that is undone (UndoBlockTxs)
+
+`UnspentDB.del` rewrites a record without the outputs a block spends; `UndoBlockTxs` merges the undo record (the
+spent outputs only) with what is left and serialises the result again. "Returned unchanged after being stored" covers
+this path too: the bytes in the map after the undo are the bytes of the original record. (The Go code must read the
+old record's scripts BEFORE it frees the old record's memory — that ordering is an effect the model does not have;
+it is checked on the real code with the client's recycling allocator and a poisoning allocator, stream `undo`.) -/
+
+/-- **undo_restores_record.** For every record and every spend mask (any subset of the outputs, mask shorter or
+    longer than the record): merging the undo record with the partly spent record gives back the record. -/
+theorem undo_restores_record (mask : List Bool) (r : Rec) :
+    mergeUndo (undoOf mask r) (some (spend mask r)) = some r :=
+  undo_restores_rec mask r
+
+/-- **undo_restores_deleted.** When the block spent everything that was live (`Serialize` returned nil and the
+    record was deleted from the map), the undo record alone is the original record. -/
+theorem undo_restores_deleted (mask : List Bool) (r : Rec) (h : serializeU (spend mask r) = none) :
+    mergeUndo (undoOf mask r) none = some r := by
+  have ha : anyOut (spendOuts mask r.outs) = false := by
+    unfold serializeU at h
+    cases hh : anyOut (spend mask r).outs with
+    | false => simpa [spend] using hh
+    | true => simp [hh] at h
+  simp [mergeUndo, undoOf, undoOuts_of_all_spent mask r.outs ha]
+
+/-- **undo_restores_bytesU.** Byte level, plain format: the partly spent record as stored (`b`) decodes, and the
+    merge of the undo record with that decoded record serialises to exactly the bytes of the original record. -/
+theorem undo_restores_bytesU (mask : List Bool) (r : Rec) (h : WFRec r) (b : Bytes)
+    (hs : serializeU (spend mask r) = some b) :
+    ∃ old, newRecU b = .ok old ∧ (mergeUndo (undoOf mask r) (some old)).bind serializeU = serializeU r := by
+  refine ⟨spend mask r, newRecU_serializeU _ (WFRec_spend mask r h) b hs, ?_⟩
+  rw [undo_restores_rec]; rfl
+
+/-- **undo_restores_bytesC.** The same in the compressed format. -/
+theorem undo_restores_bytesC (K : KeyOps) (hK : K.Sound) (mask : List Bool) (r : Rec) (h : WFRecC r) (b : Bytes)
+    (hs : serializeC K (spend mask r) = some b) :
+    ∃ old, newRecC K b = .ok old ∧ (mergeUndo (undoOf mask r) (some old)).bind (serializeC K) = serializeC K r := by
+  have hw : WFRecC (spend mask r) :=
+    ⟨h.txid, h.height, by simpa [spend, spendOuts_length] using h.count, WFOutsC_spend mask r.outs h.outs⟩
+  refine ⟨spend mask r, newRecC_serializeC K hK _ hw b hs, ?_⟩
+  rw [undo_restores_rec]; rfl
+
+example : ∃ (mask : List Bool) (r : Rec), WFRec r ∧ (serializeU (spend mask r)).isSome ∧ spend mask r ≠ r :=
+  ⟨[true, false], ⟨List.replicate 32 0, 7, false, [some ⟨1, [0x51]⟩, some ⟨2, []⟩]⟩,
+   ⟨by decide, by decide, by decide, by
+      intro o ho x hx
+      simp at ho
+      rcases ho with rfl | rfl <;> (injection hx with hx; subst hx; exact ⟨by decide, by decide⟩)⟩,
+   by decide, by decide⟩
+
+/-! ## the UTXO.db loader's ring of pack buffers (constants and shape regenerated from NewUnspentDb by go/cmd/gen_c10) -/
+
+/-- **loader_ring_safe.** With the `BUFFERS_CNT` / `CHANNEL_SIZE` of the current source: in every state the file reader
+    and the single map-filling goroutine can reach — under ANY schedule — the buffer the reader is filling
+    (`sent % BUFFERS_CNT`) holds no pack that is still queued in the channel or being walked by the consumer. Hence the
+    loader never overwrites records it has not inserted yet, whatever the number of records in the snapshot. (Needs
+    `CHANNEL_SIZE + 2 ≤ BUFFERS_CNT`: queued packs + the one being walked + the one being filled.) -/
+theorem loader_ring_safe (s : Ring) (h : RingReach Gen.UtxoLoaderFacts.channelSize s) :
+    s.Safe Gen.UtxoLoaderFacts.buffersCnt :=
+  ring_safe_of _ _ (by decide) h
+
+/-- **loader_ring_needs_two_spare_counterexample.** `CHANNEL_SIZE = BUFFERS_CNT - 1` is not enough: with 6 buffers and a
+    channel of 5 the reader reaches pack 6 (buffer 0 again) while the consumer is still walking pack 0. -/
+theorem loader_ring_needs_two_spare_counterexample : ∃ s : Ring, RingReach 5 s ∧ ¬ s.Safe 6 := by
+  have r0 : RingReach 5 ⟨0, 0, 0⟩ := .init
+  have r1 : RingReach 5 ⟨1, 0, 0⟩ := .step r0 (.send ⟨0, 0, 0⟩ (by decide))
+  have r2 : RingReach 5 ⟨1, 1, 0⟩ := .step r1 (.recv ⟨1, 0, 0⟩ (by decide) rfl)
+  have r3 : RingReach 5 ⟨2, 1, 0⟩ := .step r2 (.send ⟨1, 1, 0⟩ (by decide))
+  have r4 : RingReach 5 ⟨3, 1, 0⟩ := .step r3 (.send ⟨2, 1, 0⟩ (by decide))
+  have r5 : RingReach 5 ⟨4, 1, 0⟩ := .step r4 (.send ⟨3, 1, 0⟩ (by decide))
+  have r6 : RingReach 5 ⟨5, 1, 0⟩ := .step r5 (.send ⟨4, 1, 0⟩ (by decide))
+  have r7 : RingReach 5 ⟨6, 1, 0⟩ := .step r6 (.send ⟨5, 1, 0⟩ (by decide))
+  exact ⟨_, r7, fun hs => hs 0 (Nat.le_refl _) (by decide) (by decide)⟩
 
 end GocoinV.Props.C10
